@@ -252,16 +252,24 @@ def m_type(I, x):
 
 
 def m_sorted(I, x, key=None, reverse=False):
-    xs = list(I.iterate(x))
+    from .interp import SetVal
+    if isinstance(x, SetVal):
+        # sorting removes the dependence on hash order EXCEPT among elements with equal keys (stable sort of an
+        # arbitrary order); callers' contracts must not depend on that tie order
+        xs = list(x.items)
+    else:
+        xs = list(I.iterate(x))
     return _sort_list(I, xs, key, reverse)
 
 
 def _sort_list(I, xs, key, reverse):
-    from .interp import LambdaVal, Frame
+    from .interp import LambdaVal, Frame, Builtin
     keys = []
     for v in xs:
         if key is None:
             k = v
+        elif isinstance(key, Builtin) and key.name == "len":
+            k = m_len(I, v)
         elif isinstance(key, LambdaVal):
             fr = Frame(key.frame.func, dict(key.frame.locals))
             fr.module = key.frame.module
@@ -563,6 +571,14 @@ def eq_model(I, a, b):
             if r is False:
                 return False
         return r
+    from .interp import SetVal as _SV
+    if isinstance(a, _SV) and isinstance(b, _SV):
+        r = True
+        for x in a.items:
+            r = core.band(r, I.truth_value(b.contains(I, x)))
+        for y in b.items:
+            r = core.band(r, I.truth_value(a.contains(I, y)))
+        return r
     if isinstance(a, dict) and isinstance(b, dict):
         if set(a) != set(b):
             return False
@@ -793,6 +809,9 @@ def delitem(I, o, k):
             raise PyExc("KeyError", repr(kk))
         del o[kk]
         return
+    if isinstance(o, list) and isinstance(k, slice) and all(x is None or isinstance(x, int) for x in (k.start, k.stop, k.step)):
+        del o[k]
+        return
     if isinstance(o, list) and isinstance(k, int):
         try:
             del o[k]
@@ -941,7 +960,15 @@ class HexStr:
     def pyvc_eq(self, I, o):
         if isinstance(o, HexStr):
             return bytes_eq(self.b, o.b)
+        if hasattr(o, "pyvc_eq") and not isinstance(o, HexStr):
+            return o.pyvc_eq(I, self)
         raise Unsupported("comparison of hex string with %s" % type(o).__name__)
+
+    def pyvc_getattr(self, I, name):
+        from .interp import Builtin
+        if name == "lower":
+            return Builtin("str.lower", lambda I: self)      # bytes.hex() is lower-case
+        raise Unsupported("method %s on hex string" % name)
 
 
 def _int_from_bytes(I, b, byteorder="big", signed=False):
